@@ -16,7 +16,7 @@
 //	SW    = nil | ((tag 0|1) ...)                       feature switches
 //	MT    = (((xTAG ...) idx) ...)                      what x/text answers for a sorted tag list
 //	CMAP  = ((rune gid) ...)
-//	OUTL  = (glyf nil) | (glyf (w...)) | (cff (w...))
+//	OUTL  = (glyf n nil) | (glyf n (w...)) | (cff (w...))   n = number of glyphs (Font.NumGlyphs)
 //	GDEF  = nil | ((gid class) ...)
 //	GSUB, GPOS = nil | ((SL) (FL) (LOOKUP...))
 //	LOOKUP = none | (pair (l r v)...) | (liga (first ((in...) out)...)...)
@@ -234,9 +234,10 @@ func cmapSx(cm map[rune]int) vlib.Sx {
 func outlSx(kind string, w []int) vlib.Sx {
 	switch kind {
 	case "glyf-nil":
-		return vlib.L(vlib.Atom("glyf"), vlib.Atom("nil"))
+		// goOutlines builds one glyph and no width slice
+		return vlib.L(vlib.Atom("glyf"), vlib.Int(1), vlib.Atom("nil"))
 	case "glyf":
-		return vlib.L(vlib.Atom("glyf"), vlib.Ints(w))
+		return vlib.L(vlib.Atom("glyf"), vlib.Int(len(w)), vlib.Ints(w))
 	case "cff":
 		return vlib.L(vlib.Atom("cff"), vlib.Ints(w))
 	}
@@ -839,27 +840,41 @@ func asCmap(x vlib.Sx) (map[rune]int, error) {
 
 func asOutl(x vlib.Sx) (string, []int, error) {
 	l, err := vlib.AsList(x)
-	if err != nil || len(l) != 2 {
+	if err != nil || len(l) < 2 {
 		return "", nil, errors.New("bad outlines")
 	}
 	kind, err := vlib.AsAtom(l[0])
 	if err != nil {
 		return "", nil, err
 	}
-	if a, ok := l[1].(vlib.Atom); ok && a == "nil" {
-		if kind != "glyf" {
-			return "", nil, errors.New("bad outlines")
+	switch {
+	case kind == "glyf" && len(l) == 3:
+		n, err := vlib.AsInt(l[1])
+		if err != nil {
+			return "", nil, err
 		}
-		return "glyf-nil", nil, nil
+		if a, ok := l[2].(vlib.Atom); ok && a == "nil" {
+			if n != 1 {
+				return "", nil, errors.New("glyf outlines without widths: the harness builds exactly one glyph")
+			}
+			return "glyf-nil", nil, nil
+		}
+		w, err := vlib.AsInts(l[2])
+		if err != nil {
+			return "", nil, err
+		}
+		if n != len(w) {
+			return "", nil, errors.New("glyf outlines: the harness builds one width per glyph")
+		}
+		return "glyf", w, nil
+	case kind == "cff" && len(l) == 2:
+		w, err := vlib.AsInts(l[1])
+		if err != nil {
+			return "", nil, err
+		}
+		return "cff", w, nil
 	}
-	w, err := vlib.AsInts(l[1])
-	if err != nil {
-		return "", nil, err
-	}
-	if kind != "glyf" && kind != "cff" {
-		return "", nil, errors.New("bad outlines")
-	}
-	return kind, w, nil
+	return "", nil, errors.New("bad outlines")
 }
 
 func asGdef(x vlib.Sx) (map[int]int, error) {
